@@ -1,6 +1,7 @@
 import ZbossModel.Crc
 import ZbossModel.Frame
 import ZbossModel.Frag
+import ZbossModel.Rx
 /-! Dispatch of line-protocol operations to the executable model. -/
 namespace Zboss.Ops
 open Zboss Zboss.Crc
@@ -75,6 +76,28 @@ def handleFrame : List String → Option String
     pure (toHex (Frame.ack seq (r == "1")).serialize)
   | _ => none
 
+def showOut : Rx.Out → String
+  | .write b => "W" ++ toHex b
+  | .deliver f => "D" ++ showFrame f
+
+def showOuts (l : List Rx.Out) : String := if l.isEmpty then "." else ",".intercalate (l.map showOut)
+
+def handleRx : List String → Option String
+  | "rx" :: seq :: tr :: ev :: chunks => do
+    let seq ← seq.toNat?
+    let chunks ← chunks.mapM parseHex
+    let st0 : Rx.RxState := { packSeq := seq, transport := tr == "1", hasEvent := ev == "1" }
+    let (st, logs) := chunks.foldl (fun (acc : Rx.RxState × List String) c =>
+      let r := Rx.dataReceived (fun _ => false) acc.1 c
+      (r.1, acc.2 ++ [showOuts r.2])) (st0, [])
+    pure (" ".intercalate logs ++
+      s!" | seq={st.packSeq} ack={st.ackSeq} ev={if st.eventSet then 1 else 0} buf={toHex st.buf}")
+  | ["offline", d] => do
+    let d ← parseHex d
+    let r := Rx.run Rx.tryFrame d
+    pure ((if r.1.isEmpty then "." else ",".intercalate (r.1.map showFrame)) ++ " rem=" ++ toHex r.2)
+  | _ => none
+
 def handle : List String → String
   | ["crc8", init, d] =>
     match parseHex init, parseHex d with
@@ -96,6 +119,9 @@ def handle : List String → String
   | toks =>
     match handleFrame toks with
     | some r => r
-    | none => "bad-op"
+    | none =>
+      match handleRx toks with
+      | some r => r
+      | none => "bad-op"
 
 end Zboss.Ops
